@@ -32,7 +32,8 @@ def run(tier):
     build_harness()
     thorough = tier == "thorough"
     base = consts(Props={"p", "q"}, Vals={"a", "b", "c", "z"}, Times={1, 2}, MaxPending=3,
-                  MaxEdits=0, MaxChain=8, BaseExists=True, WithRound2=True, OracleLatest=True)
+                  MaxEdits=0, MaxChain=8, BaseExists=True, WithRound2=True, OracleLatest=True,
+                  SharedVal=False)
 
     # 1. all pairs/triples x all operation families x all timestamp orders x all sync orders
     mc2 = dict(base)
@@ -46,6 +47,17 @@ def run(tier):
         cmc(v, wd, "triples-new-task", dict(t3, BaseExists=False), timeout=1700)
     else:
         cmc(v, wd, "triples-existing-task-1prop", dict(t3, Props={"p"}), timeout=600)
+    # concurrent updates to the SAME value (every replica may also write "s"): the latest
+    # timestamp still decides.  With the former table (two updates to the same value cancel each
+    # other, whatever their timestamps: defect EQ1) the oracle must be violated
+    sv = dict(base, Props={"p"}, Vals={"a", "b", "c", "s", "z"}, Times={1, 2, 3}, SharedVal=True,
+              WithRound2=False)
+    cmc(v, wd, "pairs-shared-value", sv)
+    cfg = write_cfg(os.path.join(wd, "pairs-shared-value-former-table.cfg"), sv, init="CInit",
+                    next_="CNext", invariants=CINVS, view="CView", subst={"EqualCancels": "EqTrue"})
+    r = tlc_check(wd, "pairs-shared-value-former-table", "MCConflict.tla", cfg, timeout=600)
+    log(f"[mc] pairs-shared-value-former-table: {r['distinct']} distinct, violated={r['violated']}")
+    v.mc(r, expect_violation="OracleInv")
     # anti-vacuity: an oracle preferring the earliest timestamp must be refuted
     cmc(v, wd, "oracle-earliest-wins", dict(base, OracleLatest=False, WithRound2=False),
         expect="OracleInv")
@@ -57,6 +69,10 @@ def run(tier):
     sch = cgen(wd, "gen-pairs", g, n, 80)
     v.distinct += distinct_count(sch)
     conform(v, wd, "pairs-rounds", g, sch, obs=False)
+    gsv = dict(sv, MaxChain=20)
+    sch = cgen(wd, "gen-shared-value", gsv, n, 80)
+    v.distinct += distinct_count(sch)
+    conform(v, wd, "shared-value-rounds", gsv, sch, obs=False)
     g3 = dict(base, Replicas={"r1", "r2", "r3"}, MaxChain=30)
     sch = cgen(wd, "gen-triples", g3, n, 120)
     v.distinct += distinct_count(sch)
